@@ -505,31 +505,37 @@ func checkC11(c *ev.Ctx) {
 		}
 	}
 	c.Sharded(8, 8, func(shard int) {
-		for i, reqs := range c11SrvScenarios {
-			if i%8 != shard {
-				continue
+		if st := stallGuard(func() {
+			for i, reqs := range c11SrvScenarios {
+				if i%8 != shard {
+					continue
+				}
+				dev := bound + 1
+				if len(reqs) > 2 {
+					dev = bound
+				}
+				c11SrvExplore(c, c11SrvCase{Requests: reqs}, bound, dev)
 			}
-			dev := bound + 1
-			if len(reqs) > 2 {
-				dev = bound
+			for i, k := range scen {
+				if i%8 != shard {
+					continue
+				}
+				dev := -1
+				b := bound
+				if len(k.Ops) > 2 {
+					dev = bound + 1
+				} else if os.Getenv("VERIF_C11_BOUND2") == "" {
+					b = -1 // two threads: ALL interleavings (the shim's big lock keeps the number of real choices small)
+				}
+				c11Explore(c, k, b, dev)
+				if i%29 == 0 {
+					c.Sample(k)
+				}
 			}
-			c11SrvExplore(c, c11SrvCase{Requests: reqs}, bound, dev)
-		}
-		for i, k := range scen {
-			if i%8 != shard {
-				continue
-			}
-			dev := -1
-			b := bound
-			if len(k.Ops) > 2 {
-				dev = bound + 1
-			} else if os.Getenv("VERIF_C11_BOUND2") == "" {
-				b = -1 // two threads: ALL interleavings (the shim's big lock keeps the number of real choices small)
-			}
-			c11Explore(c, k, b, dev)
-			if i%29 == 0 {
-				c.Sample(k)
-			}
+		}); st != nil {
+			// the scheduler cannot drive this implementation (a thread blocks outside the hooked operations): this shard stops
+			// here, the result is not exhaustive, and the free-running side passes still run
+			c.Cap("scheduler stalled, exploration abandoned in shard " + fmt.Sprint(shard) + ": " + st.Error())
 		}
 	})
 	c.Set("scenarios", len(scen)+len(c11SrvScenarios))
